@@ -51,7 +51,7 @@ V07(o) == IF o.obs.result # "ok" THEN "not-ok"
 Verdict(o) == CASE Prop = "C01" -> V01(o) [] Prop = "C03" -> V03(o) [] Prop = "C06" -> V06(o) [] Prop = "C07" -> V07(o)
 
 \* drift: the real tiling differs from the mechanism layer although it is faithful
-Drift(o) == Prop = "C07" /\ o.obs.result = "ok" /\ o.obs.zooms # o.mz
+Drift(o) == Prop = "C07" /\ o.obs.result = "ok" /\ o.opts.zmode = "manual" /\ o.scale = 1 /\ o.obs.zooms # o.mz
 
 Post == /\ \A i \in 1..Len(Obs) : LET v == Verdict(Obs[i]) IN
                                   /\ (v = "ok" \/ PrintT(<<"BAD", i, v>>))
